@@ -5,6 +5,8 @@
  always: git -C /repo checkout -- .  afterwards, and regenerate the evidence files on the clean tree."""
 import json, os, subprocess, sys
 d, *props = sys.argv[1:]
+if props == ["all"]:
+    props = [f"C{i:02d}" for i in range(1, 21)]
 patch, demo = os.path.join(d, "patch.diff"), os.path.join(d, "demo.py")
 def sh(cmd, **kw):
     return subprocess.run(cmd, shell=True, capture_output=True, text=True, **kw)
@@ -22,12 +24,17 @@ try:
     out["demo_patched_exit"] = r.returncode
     out["demo_patched_tail"] = (r.stdout + r.stderr).strip().splitlines()[-1:] 
     out["checks"] = {}
-    for p in props:
+    from concurrent.futures import ThreadPoolExecutor
+    def one(p):
         r = sh(f"cd /verif && python3-vt -m pv check {p}")
         lines = [l for l in r.stdout.splitlines() if " — " in l or l.startswith(("VIOLATION", "ANALYSIS-ERROR"))]
-        out["checks"][p] = {"exit": r.returncode, "report": [l[:400] for l in lines[:6]]}
+        return p, {"exit": r.returncode, "report": [l[:400] for l in lines[:6]]}
+    with ThreadPoolExecutor(16) as ex:
+        for p, v in ex.map(one, props):
+            out["checks"][p] = v
 finally:
     sh("git -C /repo checkout -- .")
-    for p in props:
-        sh(f"cd /verif && python3-vt -m pv check {p}")
+    from concurrent.futures import ThreadPoolExecutor
+    with ThreadPoolExecutor(16) as ex:
+        list(ex.map(lambda p: sh(f"cd /verif && python3-vt -m pv check {p}"), props))
 print(json.dumps(out, indent=1))
